@@ -694,7 +694,7 @@ class PopulationBalanceModel:
         weights : numpy array
             Weights for each bin
         '''
-        return np.cumsum(self.PSD * self.PSDsize**order * weights)
+        return np.cumsum(N * self.PSDsize**order * weights)
     
     def ZeroMomentFromN(self, N):
         '''
